@@ -22,6 +22,7 @@ type vhCoordinator struct {
 	calls        []string
 	closed       bool
 	commitFails  func(call int) bool
+	commitGate   chan struct{} // when set, an offsetCommit call waits here (a slow broker: the commit is in flight)
 	heartbeatErr func(call int) error
 	heartbeats   int
 	joinResp     joinGroupResponse
@@ -91,6 +92,9 @@ func (c *vhCoordinator) offsetFetch(offsetFetchRequestV1) (offsetFetchResponseV1
 func (c *vhCoordinator) offsetCommit(r offsetCommitRequestV2) (offsetCommitResponseV2, error) {
 	c.commitCalls++
 	c.calls = append(c.calls, "offsetCommit")
+	if c.commitGate != nil {
+		<-c.commitGate
+	}
 	fail := c.commitFails != nil && c.commitFails(c.commitCalls)
 	for _, t := range r.Topics {
 		for _, p := range t.Partitions {
